@@ -102,6 +102,11 @@ func (m *mon) planActivations(seed int64) {
 	end := m.startH + int64(m.p.Blocks) - 60
 	for _, ch := range m.w.Chains {
 		m.act[ch] = &chainAct{infoID: m.w.Compass[ch], lastID: m.w.Compass[ch]}
+		if m.sharedRound != nil {
+			// the world started with a deployment round of a newer compass for all chains (crossref.go):
+			// that one is active, the contract of the bring-up is the older one
+			m.act[ch].active, m.act[ch].original = m.sharedRound, m.sharedOld
+		}
 		t := m.startH + 6 + int64(ar.Intn(140))
 		n := 1 + ar.Intn(2+m.p.Blocks/450) // 1-3 in 450 blocks, 1-4 in 900
 		for i := 0; i < n && t < end; i++ {
